@@ -1,0 +1,199 @@
+//! Verification hooks. Compiled only with `--cfg flexi_logger_verif`; inert unless a
+//! virtual time or a handler has been installed.
+//!
+//! - virtual clock: every `Local::now()` of the file writer and of `DeferredNow` reads it
+//! - creation-time table: stands in for the file system's birth time under virtual time
+//! - named points between consecutive file-system effects (crash / schedule control)
+//! - fault points in front of fallible file-system calls
+use chrono::{DateTime, Local};
+use std::collections::HashMap;
+use std::path::Path;
+use std::sync::{Arc, Mutex, OnceLock};
+
+/// Stand-in for `chrono::Local` whose `now()` reads the virtual clock.
+pub struct VLocal;
+impl VLocal {
+    /// The virtual time, if one is set, else the real local time.
+    #[must_use]
+    pub fn now() -> DateTime<Local> {
+        now()
+    }
+}
+
+struct Clock {
+    now: Option<DateTime<Local>>,
+    step_per_read_us: i64,
+}
+
+fn clock() -> &'static Mutex<Clock> {
+    static CLOCK: OnceLock<Mutex<Clock>> = OnceLock::new();
+    CLOCK.get_or_init(|| {
+        Mutex::new(Clock {
+            now: None,
+            step_per_read_us: 0,
+        })
+    })
+}
+
+/// Sets (or clears) the virtual time.
+pub fn set_virtual_now(t: Option<DateTime<Local>>) {
+    let mut c = clock().lock().unwrap_or_else(std::sync::PoisonError::into_inner);
+    c.now = t;
+}
+
+/// Makes the virtual clock advance by the given number of microseconds after every read.
+pub fn set_clock_step_per_read(us: i64) {
+    let mut c = clock().lock().unwrap_or_else(std::sync::PoisonError::into_inner);
+    c.step_per_read_us = us;
+}
+
+/// True if a virtual time is set.
+#[must_use]
+pub fn is_virtual() -> bool {
+    clock()
+        .lock()
+        .unwrap_or_else(std::sync::PoisonError::into_inner)
+        .now
+        .is_some()
+}
+
+/// The virtual time, if one is set, else the real local time.
+#[must_use]
+pub fn now() -> DateTime<Local> {
+    let mut c = clock().lock().unwrap_or_else(std::sync::PoisonError::into_inner);
+    match c.now {
+        Some(t) => {
+            if c.step_per_read_us != 0 {
+                c.now = Some(t + chrono::Duration::microseconds(c.step_per_read_us));
+            }
+            t
+        }
+        None => Local::now(),
+    }
+}
+
+type Key = (u64, u64, i128);
+
+fn table() -> &'static Mutex<HashMap<Key, DateTime<Local>>> {
+    static TABLE: OnceLock<Mutex<HashMap<Key, DateTime<Local>>>> = OnceLock::new();
+    TABLE.get_or_init(|| Mutex::new(HashMap::new()))
+}
+
+fn key_of(path: &Path) -> Option<Key> {
+    #[cfg(target_family = "unix")]
+    {
+        use std::os::unix::fs::MetadataExt;
+        let md = std::fs::metadata(path).ok()?;
+        let birth = md
+            .created()
+            .ok()
+            .and_then(|t| t.duration_since(std::time::UNIX_EPOCH).ok())
+            .map_or(-1, |d| i128::try_from(d.as_nanos()).unwrap_or(-1));
+        Some((md.dev(), md.ino(), birth))
+    }
+    #[cfg(not(target_family = "unix"))]
+    {
+        let _ = path;
+        None
+    }
+}
+
+/// Records the virtual creation time of a file that was just opened (kept if already known,
+/// as a real birth time survives truncation and renaming).
+pub fn record_creation(path: &Path) {
+    if !is_virtual() {
+        return;
+    }
+    if let Some(key) = key_of(path) {
+        let t = now();
+        table()
+            .lock()
+            .unwrap_or_else(std::sync::PoisonError::into_inner)
+            .entry(key)
+            .or_insert(t);
+    }
+}
+
+/// Sets the virtual creation time of an existing file (for fixtures).
+pub fn set_creation(path: &Path, t: DateTime<Local>) {
+    if let Some(key) = key_of(path) {
+        table()
+            .lock()
+            .unwrap_or_else(std::sync::PoisonError::into_inner)
+            .insert(key, t);
+    }
+}
+
+/// The recorded virtual creation time of the file, if any.
+#[must_use]
+pub fn creation_time(path: &Path) -> Option<DateTime<Local>> {
+    if !is_virtual() {
+        return None;
+    }
+    let key = key_of(path)?;
+    table()
+        .lock()
+        .unwrap_or_else(std::sync::PoisonError::into_inner)
+        .get(&key)
+        .copied()
+}
+
+/// Forgets all recorded creation times.
+pub fn clear_creation_table() {
+    table()
+        .lock()
+        .unwrap_or_else(std::sync::PoisonError::into_inner)
+        .clear();
+}
+
+/// Handler for named points.
+pub type PointHandler = Arc<dyn Fn(&'static str) + Send + Sync>;
+
+fn point_handler() -> &'static Mutex<Option<PointHandler>> {
+    static H: OnceLock<Mutex<Option<PointHandler>>> = OnceLock::new();
+    H.get_or_init(|| Mutex::new(None))
+}
+
+/// Installs (or removes) the handler called at every named point.
+pub fn set_point_handler(h: Option<PointHandler>) {
+    *point_handler()
+        .lock()
+        .unwrap_or_else(std::sync::PoisonError::into_inner) = h;
+}
+
+/// A named point between two effects. The handler may record, abort the process or park.
+pub fn point(name: &'static str) {
+    let h = point_handler()
+        .lock()
+        .unwrap_or_else(std::sync::PoisonError::into_inner)
+        .clone();
+    if let Some(h) = h {
+        h(name);
+    }
+}
+
+/// Handler for fault points.
+pub type FaultHandler = Arc<dyn Fn(&'static str, &Path) -> Option<std::io::Error> + Send + Sync>;
+
+fn fault_handler() -> &'static Mutex<Option<FaultHandler>> {
+    static H: OnceLock<Mutex<Option<FaultHandler>>> = OnceLock::new();
+    H.get_or_init(|| Mutex::new(None))
+}
+
+/// Installs (or removes) the handler consulted at every fault point.
+pub fn set_fault_handler(h: Option<FaultHandler>) {
+    *fault_handler()
+        .lock()
+        .unwrap_or_else(std::sync::PoisonError::into_inner) = h;
+}
+
+/// A fault point in front of a fallible file-system call of the given kind on the given path.
+/// `Some(e)` means: behave as if the call had returned `Err(e)`.
+#[must_use]
+pub fn fault(kind: &'static str, path: &Path) -> Option<std::io::Error> {
+    let h = fault_handler()
+        .lock()
+        .unwrap_or_else(std::sync::PoisonError::into_inner)
+        .clone();
+    h.and_then(|h| h(kind, path))
+}
